@@ -32,9 +32,11 @@ pub fn ccp(
     let mut dom_region_replacements = FxHashMap::default();
 
     for block in function.block_iter(context) {
-        let term = block
-            .get_terminator(context)
-            .expect("Malformed block: no terminator");
+        // Empty blocks, e.g., the unreachable `while_break` block of a loop without `break`s,
+        // have no terminator, and nothing to propagate from.
+        let Some(term) = block.get_terminator(context) else {
+            continue;
+        };
         if let InstOp::ConditionalBranch {
             cond_value,
             true_block,
